@@ -241,7 +241,7 @@ pub struct DminCase {
 }
 
 fn dmin_case_strategy(tier: Tier) -> BoxedStrategy<DminCase> {
-    let g = ArrGen { tmax: tier.pick(30, 60), never: true, plateau_end: true, plain_curves: true, derived: true, acp: true, loose: true, depth: 2 };
+    let g = ArrGen { tmax: tier.pick(30, 60), never: true, plateau_end: true, plain_curves: true, derived: true, acp: true, loose: true, poisson: false, depth: 2 };
     (arr_strategy(g), 1usize..30).prop_map(|(spec, take)| DminCase { spec, take }).boxed()
 }
 
